@@ -14,13 +14,14 @@ TRUSTED = ["translator tools/py2jit.py (fail-closed, Python ast -> coq/Gen/Kerne
            "numba's compilation of the kernel text is covered only by the compiled = bounds-checked compiled = .py_func = Jit.Interp correspondence"]
 ASSUMPTIONS = ["the public-call preconditions Pre_<kernel> are read off the wrappers by hand (lengths of paired arrays equal; counts produced by jitrestrict_with_count, whose contract is proved); "
                "they are exercised by the bounds-checked public degenerate calls",
-               "_overlap_split's output-buffer bound is a float computation (not proved) and _jitperievent_trigger_average (N-d hankel arrays) is not translated: both are listed in "
-               "coverage.checked_not_proved and C15 is partial on their account"]
+               "_overlap_split's output-buffer bound N is proved on exact rationals; float64 rounding of N is not covered (the kernel's own N + 1 slack absorbs it); trailing data axes of "
+               "_jitperievent_trigger_average are collapsed in the model"]
 
 PROVED = {"jitrestrict": "k_jitrestrict_safe", "jitrestrict_with_count": "k_jitrestrict_with_count_safe", "jitin_interval": "k_jitin_interval_safe", "jitunion_isets": "k_jitunion_isets_safe",
           "_jitfix_iset": "k__jitfix_iset_safe", "jitintersect": "k_jitintersect_safe", "jitunion": "k_jitunion_safe", "jitdiff": "k_jitdiff_safe", "jitremove_nan": "k_jitremove_nan_safe",
           "jitthreshold": "k_jitthreshold_safe", "jitcount": "k_jitcount_safe", "_jitbin_array": "k__jitbin_array_safe", "jitvaluefrom": "k_jitvaluefrom_safe",
-          "_cross_correlogram": "k__cross_correlogram_safe", "_jitcontinuous_perievent": "k__jitcontinuous_perievent_safe"}
+          "_cross_correlogram": "k__cross_correlogram_safe", "_jitcontinuous_perievent": "k__jitcontinuous_perievent_safe",
+          "_jitperievent_trigger_average": "k__jitperievent_trigger_average_safe", "_overlap_split": "k__overlap_split_safe"}
 
 
 def worker(n, seed, bc, public):
